@@ -1314,12 +1314,18 @@ def rule_diagnosed_failures(prog, fixture=False):
         main = main[0]
         helpers = set()
         for n in main.walk():
+            e = None
             if n.get("k") == "ReturnStmt" and n.get("c"):
                 e = strip_all(n["c"][0])
-                if is_call(e):
-                    for t in prog.call_targets(main, e):
-                        if t.raw.get("ret") == "int" and len(t.params) == 1:
-                            helpers.add(t)
+            elif n.get("k") == "BinaryOperator" and n.get("op") == "=":
+                e = strip_all(n["c"][1])
+            elif n.get("k") == "VarDecl" and n.get("c"):
+                e = strip_all(n["c"][0])
+            if e is not None and is_call(e) and e.get("k") == "CallExpr":
+                for t in prog.call_targets(main, e):
+                    if t.raw.get("ret") == "int" and len(t.params) == 1 and \
+                            (t.params[0].get("ct") or t.params[0].get("t")) in ("bool", "_Bool"):
+                        helpers.add(t)
         for h in helpers:
             dom = h.cfg.dominators()
             test_blocks = []
@@ -1332,6 +1338,11 @@ def rule_diagnosed_failures(prog, fixture=False):
                     test_blocks.append(bid)
             key = "%s::%s::stdout-failure" % (h.relfile(), h.qn)
             if not test_blocks:
+                from .c11 import cout_state_as_value
+                if cout_state_as_value(h):
+                    r.undecided.append("%s: the status helper captures std::cout's state as a value instead of "
+                                       "branching on it; not followed" % h.qn)
+                    continue
                 r.add(key, "%s:%d" % (h.relfile(), h.line), False, "no test of std::cout in the status helper")
                 continue
             bad = None
